@@ -89,16 +89,18 @@ Definition put_bin (s : str) : list N := put16 (len s mod 65536) ++ s.
 (* uint32(x) << m for a uint32 shift count m *)
 Definition shl32 (x m : N) : N := if m <? 32 then (N.shiftl x m) mod 4294967296 else 0.
 
-(* for { digit, err := r.ReadByte(); if err != nil && err != io.EOF {return}; ... }
-   at end of input ReadByte gives (0, io.EOF): the loop takes digit 0 and stops *)
+(* for { digit, err := r.ReadByte(); if err != nil {return 0, err}; if multiplier > 21 {return ErrMalformed}; ... }
+   at end of input ReadByte gives io.EOF, which is returned; a fifth byte is refused *)
 Fixpoint read_vbi (b : list N) (vbi mult : N) : res (N * list N) :=
   match b with
-  | [] => Ok (vbi, [])
+  | [] => Err EEOF
   | d :: r =>
-      let vbi' := N.lor vbi (shl32 (N.land d 127) mult) in
-      if 268435455 <? vbi' then Err MALFORMED
-      else if N.land d 128 =? 0 then Ok (vbi', r)
-      else read_vbi r vbi' ((mult + 7) mod 4294967296)
+      if 21 <? mult then Err MALFORMED
+      else
+        let vbi' := N.lor vbi (shl32 (N.land d 127) mult) in
+        if 268435455 <? vbi' then Err MALFORMED
+        else if N.land d 128 =? 0 then Ok (vbi', r)
+        else read_vbi r vbi' ((mult + 7) mod 4294967296)
   end.
 Definition read_varint (b : list N) : res (N * list N) := read_vbi b 0 0.
 
@@ -169,7 +171,7 @@ Fixpoint valid_utf8_loop (fuel : nat) (p : list N) : res bool :=
           let '(ru, size) := decode_rune p in
           if ru <=? 31 then Ok false
           else if (127 <=? ru) && (ru <=? 159) then Ok false
-          else if ru =? RUNE_ERROR then Ok false
+          else if (ru =? RUNE_ERROR) && (size <=? 1) then Ok false
           else if negb (valid_rune ru) then Ok false
           else if size =? 0 then Ok true
           else do p' <- slice_from size p; valid_utf8_loop k p'
@@ -222,10 +224,11 @@ Fixpoint valid_topic_filter_loop (fuel : nat) (must : bool) (prev : option N) (p
             else do p' <- slice_from size p; valid_topic_filter_loop k must (Some p0) p'
       end
   end.
+(* prevByte = '/', isSetPrevByte = true: the start of the filter is the start of a level *)
 Definition valid_topic_filter_impl (must : bool) (p : list N) : res bool :=
   match p with
   | [] => Ok false
-  | _ => valid_topic_filter_loop (S (length p)) must None p
+  | _ => valid_topic_filter_loop (S (length p)) must (Some SLASH) p
   end.
 
 (* ---- ValidV5Topic ---- *)
